@@ -330,7 +330,7 @@ def check(run, replay_path=None):  # noqa: ARG001
             if name.startswith('_gen_c14_'):
                 os.remove(os.path.join(SPEC_DIR, name))
     run.assumptions += [
-        'URI domain: schemes {sdc.x, SDC.X, Sdc.X, sdc.y}, authorities {h, H, g, none}, path segments over '
+        'URI domain: schemes {sdc.x, SDC.X, Sdc.X, sdc.y}, authorities {h, H, g, none, h:1, H:1, h:2, u@h, v@h}, path segments over '
         '{a, A, %61, %41, %2F, %2f, empty, a%2Fa, %2561, b}; query, fragment, dot segments, ldap and uuid rules '
         'are outside the domain',
         'trailing slash = last segment empty; "segment-wise prefix" is taken literally (sdc.x://h/a/ is not a prefix '
